@@ -62,7 +62,7 @@ PROPS = {
                 gen=lambda seed, tier: gen.gen_def_cases(seed, 20000 if tier == 'thorough' else 2500), flavours=['c'],
                 rule='random (mostly defective) terminal/rule lists through the callbacks, every defect class alone and in pairs, strict in {0,1}; return code vs model, symbol flags and rules vs model',
                 assumptions=COMMON_ASSUME),
-    'C11': dict(level='proof', theorem_modules=['C11', 'C10'], min_theorems=8, tags=['C11'], crash_counts=True,
+    'C11': dict(level='proof', theorem_modules=['C11', 'C11Yacc', 'C10', 'Generated'], min_theorems=8, tags=['C11'], crash_counts=True,
                 gen=lambda seed, tier: gen.gen_descr_cases(seed, 20000 if tier == 'thorough' else 2000), flavours=['c'],
                 rule='descriptions printed from a random AST with random layout (whitespace, newlines, comments, optional semicolons, TERM sections anywhere, harmless redeclarations, explicit and implicit codes, char constants, all translation forms), 30% byte-mutated, 10% arbitrary bytes; return code, error line, terminals-with-codes and rules vs the Lean lexer/parser model; parses through the description-defined object and its callback-defined twin both judged against the model',
                 assumptions=COMMON_ASSUME + ['a name declared both with and without a code is outside the property (the generator keeps redeclarations consistent)']),
